@@ -1,2 +1,1 @@
-for _p in ["C04","C06","C10","C14","C15","C16","C18","C19","C20"]:
-    NOT_APPLICABLE[_p] = "check under construction in this build round (static rule designed in DESIGN.md section 5, not yet registered)"
+# every given property has at least one clause decided statically; none is declined as a whole
